@@ -25,7 +25,10 @@ EntriesOf(L) == [i \in 1..NEntries(L) |-> [hl |-> L.lf[i].dstart - L.lf[i].pos, 
 
 Fresh(es) == /\ E' = es /\ spos' = 0 /\ cur' = 0 /\ pulled' = 0 /\ phase' = "files" /\ done' = 0 /\ nfile' = 0 /\ nmeta' = 0
 TraceReset == IsEvent("Reset") /\ Fresh(<<>>) /\ cl' = [ok |-> FALSE] /\ mode' = "pull"
+\* everything this crate's writer emits from a valid program (entries >= 1) has local headers that carry the sizes and
+\* agree with the directory: it is an archive the property speaks about, not one the check may skip
 TraceSOpen == /\ IsEvent("SOpen") /\ cl' = ev.L /\ mode' = "pull"
+              /\ Check(ev.origin = "writer" => (ev.L.ok /\ Streamable(ev.L)))
               /\ Fresh(IF ev.L.ok /\ Streamable(ev.L) THEN EntriesOf(ev.L) ELSE <<>>)
               /\ TLCSet(1, TLCGet(1) + (IF ev.L.ok /\ Streamable(ev.L) THEN 1 ELSE 0))
 Good == cl.ok /\ Streamable(cl) /\ E # <<>>
